@@ -250,6 +250,22 @@ func TestC18(t *testing.T) {
 			case 3:
 				add("github.com/u/" + rapid.SampledFrom([]string{"rand", "template", "http", "json", "a", "fmt"}).Draw(rt, "nonstd"))
 			}
+			if rapid.IntRange(0, 11).Draw(rt, "crowd") == 0 {
+				// a crowd of third-party packages called like a std package of the set (the 7th, 20th, 40th import
+				// of one base name)
+				base := stdpkg.Name(rapid.SampledFrom(importable).Draw(rt, "crowdbase"))
+				for _, p := range sc.Paths {
+					if nm := stdpkg.Name(p); nm != "" && rapid.Bool().Draw(rt, "crowdofset") {
+						base = nm
+						break
+					}
+				}
+				for k := rapid.IntRange(3, 40).Draw(rt, "ncrowd"); k > 0; k-- {
+					add(fmt.Sprintf("crowd.example/v%d/%s", k, base))
+				}
+				collide = true
+				r.Class("crowd_of_one_base_name")
+			}
 		}
 		if rapid.Bool().Draw(rt, "prefix") {
 			sc.File.Ops = append(sc.File.Ops, recipe.FileOp{Op: "PackagePrefix", Args: []recipe.Text{"pkg"}})
